@@ -105,3 +105,154 @@ theorem row_normal {np secs j0 : Nat} (cl : Closure) (hseam : cl.seam = true) (h
   simp [List.filter, nd1, nd2, dirEdges, triEdges, mapEdges, quadEdges]
 
 end Retro.Lathe
+
+namespace Retro.Lathe
+open Retro.Surface Retro.Cyl
+
+/-- The row above a bottom pole: the first triangle of each quad collapses, the second ones form
+the pole fan. -/
+theorem row_bottom_pole {np secs j0 : Nat} (cl : Closure) (hseam : cl.seam = true) (hwrap : cl.wrap = false)
+    (hs : 2 ≤ secs) (hj : j0 + 1 < np) (h0 : isPole np cl j0 = true) (h1 : isPole np cl (j0 + 1) = false) :
+    rowMerged np secs cl j0 = mapEdges (enc secs) (apexFwd (j0, 0) (j0 + 1) secs) := by
+  unfold rowMerged rowFaces apexFwd
+  rw [dirEdges_filter_map_flatMap, mapEdges_flatMap]
+  apply flatMap_congr'
+  intro i0 hi0
+  rw [List.mem_range] at hi0
+  rw [quad_bridge_cl cl hseam hwrap (by omega) hj hi0]
+  have h2 : sm secs i0 < secs := sm_lt hi0
+  have h3 : sm secs i0 ≠ i0 := sm_ne hs
+  simp only [h0, h1, Bool.false_eq_true, if_false, if_true]
+  have nd1 : nondegenerate (enc secs (j0, 0), enc secs (j0 + 1, sm secs i0), enc secs (j0, 0)) = false := by
+    simp [nondegenerate]
+  have nd2 : nondegenerate (enc secs (j0, 0), enc secs (j0 + 1, i0), enc secs (j0 + 1, sm secs i0)) = true := by
+    simp only [nondegenerate, enc_succ_row]
+    simp only [enc, bne_iff_ne, Bool.and_eq_true]
+    refine ⟨⟨?_, ?_⟩, ?_⟩ <;> omega
+  simp [List.filter, nd1, nd2, dirEdges, triEdges, mapEdges]
+
+/-- The row below a top pole: the second triangle of each quad collapses. -/
+theorem row_top_pole {np secs j0 : Nat} (cl : Closure) (hseam : cl.seam = true) (hwrap : cl.wrap = false)
+    (hs : 2 ≤ secs) (hj : j0 + 1 < np) (h0 : isPole np cl j0 = false) (h1 : isPole np cl (j0 + 1) = true) :
+    rowMerged np secs cl j0 = mapEdges (enc secs) (apexBwd (j0 + 1, 0) j0 secs) := by
+  unfold rowMerged rowFaces apexBwd
+  rw [dirEdges_filter_map_flatMap, mapEdges_flatMap]
+  apply flatMap_congr'
+  intro i0 hi0
+  rw [List.mem_range] at hi0
+  rw [quad_bridge_cl cl hseam hwrap (by omega) hj hi0]
+  have h2 : sm secs i0 < secs := sm_lt hi0
+  have h3 : sm secs i0 ≠ i0 := sm_ne hs
+  simp only [h0, h1, Bool.false_eq_true, if_false, if_true]
+  have nd1 : nondegenerate (enc secs (j0, i0), enc secs (j0 + 1, 0), enc secs (j0, sm secs i0)) = true := by
+    simp only [nondegenerate, enc_succ_row]
+    simp only [enc, bne_iff_ne, Bool.and_eq_true]
+    refine ⟨⟨?_, ?_⟩, ?_⟩ <;> omega
+  have nd2 : nondegenerate (enc secs (j0, i0), enc secs (j0 + 1, 0), enc secs (j0 + 1, 0)) = false := by
+    simp [nondegenerate]
+  simp [List.filter, nd1, nd2, dirEdges, triEdges, mapEdges]
+
+end Retro.Lathe
+
+namespace Retro.Lathe
+open Retro.Surface Retro.Cyl
+
+/-- Closedness does not depend on the order in which the faces are listed. -/
+theorem closedG_rotate {α : Type} {B F T : List (α × α)} (h : ClosedG (B ++ (F ++ T))) :
+    ClosedG (F ++ (B ++ T)) := by
+  have hp : List.Perm (F ++ (B ++ T)) (B ++ (F ++ T)) := by
+    rw [← List.append_assoc, ← List.append_assoc]
+    exact List.Perm.append_right T List.perm_append_comm
+  constructor
+  · exact hp.nodup_iff.mpr h.nodup
+  · intro e he
+    exact hp.mem_iff.mpr (h.paired e (hp.mem_iff.mp he))
+
+theorem shift_rowEdges (S j : Nat) : mapEdges (shift 1) (rowEdges S j) = rowEdges S (j + 1) := by
+  unfold rowEdges
+  rw [mapEdges_flatMap]
+  apply flatMap_congr'
+  intro i _
+  simp [mapEdges, quadEdges, shift]
+
+theorem band_one_rows (m S : Nat) :
+    bandEdges 1 m S = (List.range m).flatMap fun j => rowEdges S (j + 1) := by
+  unfold bandEdges sideEdges
+  rw [mapEdges_flatMap]
+  apply flatMap_congr'
+  intro j _
+  exact shift_rowEdges S j
+
+theorem range_split (m : Nat) :
+    List.range (m + 2) = 0 :: ((List.range m).map (· + 1) ++ [m + 1]) := by
+  rw [List.range_succ_eq_map, List.range_succ, List.map_append]
+  rfl
+
+end Retro.Lathe
+
+namespace Retro.Lathe
+open Retro.Surface Retro.Cyl
+
+/-- Uncapped model: directed edges of the merged faces, row by row. -/
+theorem merged_rows (np secs : Nat) (cl : Closure) :
+    dirEdges (mergedFaces np secs false cl) = (List.range (np - 1)).flatMap (rowMerged np secs cl) := by
+  unfold mergedFaces faces
+  have : hasCaps np false = false := by simp [hasCaps]
+  rw [this]
+  simp only [Bool.false_eq_true, if_false, List.append_nil]
+  rw [sideFaces_rows, dirEdges_filter_map_flatMap]
+  rfl
+
+/-- **Sphere / capsule model after `ident` = pole fan + band + pole fan** (`m + 2` rows of quads). -/
+theorem sphere_bridge {m secs : Nat} (hs : 3 ≤ secs) :
+    dirEdges (mergedFaces (m + 3) secs false { poleBottom := true, poleTop := true }) =
+      mapEdges (enc secs)
+        (apexFwd (0, 0) 1 secs ++ (bandEdges 1 m secs ++ apexBwd (m + 2, 0) (m + 1) secs)) := by
+  rw [merged_rows, show m + 3 - 1 = m + 2 by omega, range_split]
+  simp only [List.flatMap_cons, List.flatMap_append, List.flatMap_nil, List.append_nil]
+  have hb := row_bottom_pole (np := m + 3) (secs := secs) (j0 := 0)
+    { poleBottom := true, poleTop := true } rfl rfl (by omega) (by omega)
+    (by simp [isPole]) (by simp [isPole])
+  have ht := row_top_pole (np := m + 3) (secs := secs) (j0 := m + 1)
+    { poleBottom := true, poleTop := true } rfl rfl (by omega) (by omega)
+    (by simp [isPole]) (by simp [isPole])
+  rw [hb, ht]
+  have hm : (List.map (fun x => x + 1) (List.range m)).flatMap
+      (rowMerged (m + 3) secs { poleBottom := true, poleTop := true }) =
+      mapEdges (enc secs) (bandEdges 1 m secs) := by
+    rw [band_one_rows, mapEdges_flatMap, List.flatMap_map]
+    apply flatMap_congr'
+    intro j hj
+    rw [List.mem_range] at hj
+    exact row_normal _ rfl rfl (by omega) (by omega) (by simp [isPole]; omega) (by simp [isPole]; omega)
+  rw [hm]
+  simp [mapEdges]
+
+end Retro.Lathe
+
+namespace Retro.Lathe
+open Retro.Surface Retro.Cyl
+
+theorem band_cols {lo cnt S : Nat} (hS : 3 ≤ S) : ∀ e ∈ bandEdges lo cnt S, e.1.2 < S + 1 ∧ e.2.2 < S + 1 := by
+  intro e he
+  obtain ⟨e0, he0, rfl⟩ := mem_band.mp he
+  have := cylEdges_cols (R := cnt) hS e0 (by unfold cylEdges; exact List.mem_append_left _ he0)
+  simpa [shift] using this
+
+theorem apexFwd_cols {P : V} {r S : Nat} (hP : P.2 < S + 1) :
+    ∀ e ∈ apexFwd P r S, e.1.2 < S + 1 ∧ e.2.2 < S + 1 := by
+  intro e he
+  obtain ⟨i, hi, h | h | h⟩ := mem_apexFwd.mp he <;> subst h <;> have := sm_lt hi <;> simp <;> omega
+
+theorem apexBwd_cols {P : V} {r S : Nat} (hP : P.2 < S + 1) :
+    ∀ e ∈ apexBwd P r S, e.1.2 < S + 1 ∧ e.2.2 < S + 1 := by
+  intro e he
+  have := apexFwd_cols hP (e.2, e.1) (mem_apexBwd.mp he)
+  exact ⟨this.2, this.1⟩
+
+/-- Transfer of closedness from a coordinate edge list to the index model. -/
+theorem closed_of_enc {secs : Nat} {E : List (V × V)} (hcols : ∀ e ∈ E, e.1.2 < secs + 1 ∧ e.2.2 < secs + 1)
+    (h : ClosedG E) : ClosedOriented (mapEdges (enc secs) E) :=
+  closedG_nat (closedG_map (enc secs) (fun v => v.2 < secs + 1) _ (fun x y => enc_inj secs x y) hcols h)
+
+end Retro.Lathe
